@@ -5,6 +5,9 @@ package props
 // enumerated is the family's product times the context.
 
 import (
+	"fmt"
+	"strings"
+
 	. "verif/internal/luaref"
 )
 
@@ -104,5 +107,85 @@ func deepFrame(depth int) func(*Block) *Block {
 			Return(CallN("unpack", Name("__r"), Num(1), Dot(Name("__r"), "n"))),
 		}
 		return Blk(st...)
+	}
+}
+
+// bufBoundary: for every carriage return of a program's rendering with the given end-of-line
+// sequence (incl. those inside long strings and comments), one variant that starts with a filler
+// comment sized so that this carriage return is the last byte of the reader's first 4096-byte
+// block (and one more for the second block). Line counting and the pairing of CR LF / LF CR must
+// not depend on where the source happens to be cut into blocks.
+func bufBoundary(g Gen, eol string) Gen {
+	return func(yield func(*Prog)) {
+		g(func(p *Prog) {
+			if (p.Layout != Layout{}) {
+				return
+			}
+			mk, chunk := p.Mk, p.Chunk
+			build := func() *Block {
+				if mk != nil {
+					return mk()
+				}
+				return chunk
+			}
+			// (generators build lazily; the number of variants must be known here, so render once)
+			first := build()
+			if first == nil {
+				return
+			}
+			text := Print(first, Layout{EOL: eol})
+			var crs []int
+			for i := 0; i < len(text); i++ {
+				if text[i] == '\r' {
+					crs = append(crs, i)
+				}
+			}
+			for ci, idx := range crs {
+				for _, block := range []int{4096, 8192} {
+					pad := block - 1 - idx - (2 + len(eol))
+					if pad < 1 {
+						continue
+					}
+					q := &Prog{Family: "B/" + p.Family, Shape: fmt.Sprintf("%s/eol=%q/cr%d@%d", p.Shape, eol, ci, block-1), Layout: Layout{EOL: eol, LeadComment: pad}, Mk: build}
+					if mk == nil {
+						// a shared AST cannot be printed under two layouts at once: only lazily built programs get variants
+						return
+					}
+					yield(q)
+				}
+			}
+		})
+	}
+}
+
+// genCRLFProgs: programs whose long strings and long comments contain line ends of every kind; the
+// string values (Lua normalises any line end inside a long string to "\n") and the lines reported
+// after them are observed.
+func genCRLFProgs() Gen {
+	return func(yield func(*Prog)) {
+		for _, inner := range []string{"\n", "\r\n", "\n\r", "\r"} {
+			for _, form := range []string{"long-string", "long-string-level2", "quoted-backslash-newline", "long-comment", "mixed"} {
+				inner, form := inner, form
+				yield(&Prog{Family: "F-crlf", Shape: fmt.Sprintf("%s/inner=%q", form, inner), Mk: func() *Block {
+					line := func() Expr { return Dot(Call(Dot(Name("debug"), "getinfo"), Num(1), Str("l")), "currentline") }
+					nl := func(s string) string { return strings.ReplaceAll(s, "\n", inner) }
+					st := []Stat{Emit(Str("line"), line())}
+					switch form {
+					case "long-string":
+						st = append(st, Local1("s", &StrExpr{V: "a\nb\n\nc", Raw: "[[" + nl("a\nb\n\nc") + "]]"}), Emit(Str("value"), Un("#", Name("s")), Name("s")))
+					case "long-string-level2":
+						st = append(st, Local1("s", &StrExpr{V: "x]]\ny", Raw: "[==[" + nl("\nx]]\ny") + "]==]"}), Emit(Str("value"), Un("#", Name("s")), Name("s")))
+					case "quoted-backslash-newline":
+						st = append(st, Local1("s", &StrExpr{V: "c\nd", Raw: "\"c\\" + nl("\n") + "d\""}), Emit(Str("value"), Un("#", Name("s")), Name("s")))
+					case "long-comment":
+						st = append(st, Local1("s", &StrExpr{V: "after", Raw: "--[[" + nl("one\ntwo\n") + "]] \"after\""}), Emit(Str("value"), Name("s")))
+					case "mixed":
+						st = append(st, Local1("s", &StrExpr{V: "p\nq", Raw: "--[=[" + nl("c1\n") + "]=] [[" + nl("p\nq") + "]]"}), Emit(Str("value"), Un("#", Name("s")), Name("s")))
+					}
+					st = append(st, Emit(Str("line-after"), line()), Local1("bad", Nil()), Emit(Str("fault-line"), Paren(CallN("pcall", Func(nil, false, Return(Bin("+", Name("bad"), Num(1))))))))
+					return Blk(st...)
+				}})
+			}
+		}
 	}
 }
